@@ -78,7 +78,7 @@ Qed.
 
 Lemma SI_discard_if_stub : forall N d i, SI N d -> SI N (discard_if_stub d i).
 Proof.
-  intros N d i H. unfold discard_if_stub. destruct (n_exp (get d i)); [exact H|].
+  intros N d i H. unfold discard_if_stub. destruct (n_exp (get d i) && negb (n_skip (get d i))); [exact H|].
   apply SI_upd_flag; [constructor|exact H].
 Qed.
 
